@@ -600,3 +600,50 @@ def rule_exact(ctx, floor=4):
                        tt.of_name('PyDict_CheckExact') == 'exact' and tt.of_name('PyDict_Check') == 'inexact',
                        'PyList_Check(x) before PyList_GetSlice(x) recognised as inexact; Py_TYPE(x) == &T || …_CheckExact(x) accepted')
     return r
+
+
+# ====================================================================================================== C31-SUBORDER (pending finding, FINDING_1 of /tmp/strengthen6/I3)
+def _and_leaves(node):
+    """operands of a (nested) `and` tree, left to right"""
+    if ctor_is(node, 'BinopNode') and node.__dict__.get('operator') == 'and':
+        return _and_leaves(node.__dict__.get('operand1')) + _and_leaves(node.__dict__.get('operand2'))
+    return [node]
+
+
+def suborder_of(sym, npos, nkw):
+    """owners ('pos0', 'kw1' ...) of the sub-pattern tests of ClassPatternNode.get_comparison_node in evaluation order"""
+    c = sym.cls('ClassPatternNode')
+    f_assign = sym.method(c, 'create_main_pattern_assignment_list')[1]
+    f_cmp = sym.method(c, 'get_comparison_node')[1]
+    pos_recs = [Rec('pos%d' % i) for i in range(npos)]
+    kw_recs = [Rec('kw%d' % i) for i in range(nkw)]
+    names = [NS('name%d' % i, _ctor='MockName', name='attr%d' % i, pos='POSN%d' % i, analyse_declarations=lambda env: None) for i in range(nkw)]
+    class_ = NS('class_', _ctor='MockClassRef', type=NS('t'), pos='POSC', clone_node=None)
+    o = sym.obj(c, pos='POS', class_=class_, positional_patterns=[x.ns for x in pos_recs], keyword_pattern_names=list(names),
+                keyword_pattern_patterns=[x.ns for x in kw_recs], class_known_type=None, as_targets=[])
+    subj = subject_mock(sym)
+    sym.run('ClassPatternNode.create_main_pattern_assignment_list', f_assign, [o, subj, NS('env')])
+    cmp_ = sym.run('ClassPatternNode.get_comparison_node', f_cmp, [o, subj, None])
+    roots = [x for x in walk_ns(cmp_) if ctor_is(x, 'BinopNode') and x.__dict__.get('operator') == 'and']
+    if not roots:
+        raise AnalysisError('ClassPatternNode.get_comparison_node no longer builds an `and` chain of its tests')
+    leaves = _and_leaves(roots[0])
+    return [x.__dict__.get('owner') for x in leaves if ctor_is(x, 'MockTest')], f_cmp.lineno
+
+
+def rule_suborder(ctx, sym=None, floor=4):
+    """pending finding (FINDING_1): fires on ClassPatternNode.make_subpattern_checks of the unmodified tree (keyword sub-patterns are matched before the positional ones)"""
+    sym = sym or Sym(ctx)
+    r = Rule('C31-SUBORDER', 'class patterns: the sub-patterns are matched against the extracted attributes in CPython\'s order — positional sub-patterns left to right, then keyword '
+             'sub-patterns left to right (the first failing sub-pattern ends the match, so the order decides which __eq__ / nested lookups run)', floor)
+    for npos, nkw in ((1, 1), (2, 1), (1, 2), (2, 2), (2, 0), (0, 2)):
+        got, line = suborder_of(sym, npos, nkw)
+        want = ['pos%d' % i for i in range(npos)] + ['kw%d' % i for i in range(nkw)]
+        key = '%s.ClassPatternNode:subpattern-order' % MOD
+        r.inst('%s:%d+%d' % (key, npos, nkw), sample='C(%d positional, %d keyword): tests in order %s' % (npos, nkw, got))
+        if got != want and not r.findings:                       # (one report; evaluation goes on so that the instance count does not depend on the outcome)
+            r.violate(key, sym.m.rel, line, 'class pattern with %d positional and %d keyword sub-pattern(s): the sub-patterns are tested in the order %s, CPython tests %s — for '
+                      '`case P(0, b=1)` the comparison b == 1 runs (and can end the match) before a == 0: other __eq__ methods / nested attribute lookups are called' % (npos, nkw, got, want))
+    r.positive_control(_and_leaves(NS('b', _ctor='BinopNode', operator='and', operand1=NS('b2', _ctor='BinopNode', operator='and', operand1=1, operand2=2), operand2=3)) == [1, 2, 3],
+                       'left-to-right flattening of a nested `and` tree')
+    return r
